@@ -270,7 +270,7 @@ def run(ctx):
             for case in CORPUS:
                 check_case(ctx, case, tmp)
                 ctx.count("corpus")
-        n = 320 if ctx.quick() else 24000 // wcount
+        n = 320 if ctx.quick() else 12000 // wcount
         c04.poison_process(ctx, tmp)
         for case in c04.wide_cases(ctx.rng):
             check_case(ctx, case, tmp)
